@@ -196,13 +196,16 @@ class Gen:
             items.append(("inc", "inc%d.inc" % r.randrange(1000), [self.lab(), self.ins(cpu), self.data(), self.ins(cpu)]))
             items += self.body(cpu, r.randrange(0, 3))
         elif shape == "data-only":
-            items += [self.data() for _ in range(r.randrange(1, 8))]
+            for _ in range(r.randrange(1, 8)):
+                if r.random() < 0.4:
+                    items.append(self.lab())
+                items.append(self.data())
             if r.random() < 0.3:
                 items.insert(1, ("be",) if r.random() < 0.5 else ("le",))
         elif shape == "data-units":
             # data runs that start / end inside an address unit, long runs, runs broken by reservations
             bpa = self.table[cpu]["bpa"]
-            items += [self.data(odd=True), ("resb", N(r.choice([1, 2, 3]))), self.data(), ("resb", N(1)), self.data(odd=True),
+            items += [self.data(odd=True), ("resb", N(r.choice([1, 2, 3]))), self.lab(), self.data(), ("resb", N(1)), self.lab(), self.data(odd=True),
                       ("db", "db", [N(r.randrange(256)) for _ in range(r.choice([15, 16, 17, 32, 33, 47]))])]
         elif shape == "code-only":
             items += [self.ins(cpu) for _ in range(r.randrange(1, 10))]
